@@ -27,7 +27,7 @@ def fmtResp (r : Resp) : String :=
 def parsePart (t : String) : Option PartD :=
   match t.splitOn "|" with
   | [n, r, p, sz, k] =>
-    if sz.toNat?.isSome && (k == "w" || k == "h" || k == "p") then some ⟨unesc n, unesc r, unesc p⟩ else none
+    if sz.toNat?.isSome && (k == "w" || k == "h" || k == "p" || k == "q") then some ⟨unesc n, unesc r, unesc p⟩ else none
   | _ => none
 
 def parseMethod (m : String) : Option String :=
